@@ -1,5 +1,13 @@
 import Mp.EscProofs
-/-! C09 — print/parse round trip: property theorems. -/
+import Mp.EscBridge
+import Mp.FactChecks2
+/-! C09 — property theorems (proved in the imported modules; statements are checked there, axioms audited here). -/
 #print axioms Esc.literal_roundtrip
 #print axioms Esc.seq_eq_sim
 #print axioms Esc.unescape_order_independent
+#print axioms Mp.unescape_eq_unescS
+#print axioms Mp.escape_eq
+#print axioms Mp.model_literal_roundtrip
+#print axioms Mp.model_unescape_order_independent
+#print axioms Mp.FactChecks.model_unescape_rules
+#print axioms Mp.FactChecks.model_escape_rules
